@@ -28,6 +28,8 @@ type SrcStats struct {
 	ReadAfterClose int
 	ErrFired  bool
 	Name      string
+	// OnClose, if set, is called when the consumer closes the source
+	OnClose func()
 }
 
 // Chunks returns the sequence of chunks the script delivers.
@@ -103,6 +105,9 @@ func (c *ChunkSource) Close() {
 	rt.Yield("src.Close(" + c.St.Name + ")")
 	c.closed = true
 	c.St.Closes++
+	if c.St.OnClose != nil {
+		c.St.OnClose()
+	}
 }
 
 // ReaderSource implements io.ReadCloser with short reads at chunk boundaries.
@@ -175,6 +180,9 @@ func (r *ReaderSource) Close() error {
 	rt.Yield("src.Close(" + r.St.Name + ")")
 	r.closed = true
 	r.St.Closes++
+	if r.St.OnClose != nil {
+		r.St.OnClose()
+	}
 	return nil
 }
 
